@@ -5,7 +5,7 @@ import shutil
 import tempfile
 from pathlib import Path
 
-from ..world import WLCLS
+from ..world import WLCLS, FsPath
 from . import common as cm
 
 _DIR = {}
@@ -35,6 +35,7 @@ EMIT = [
     ["emit", "comment", ["line one\nline two\n\n"], {}],
     ["emit", "comment", ["range 10\x9620 g/L \x80\x9f " + "".join(chr(c) for c in range(0xA1, 0x100))], {}],
     ["emit", "evo_wash", [], {"tips": [1, 2], "waste_location": [52, 2], "cleaner_location": [52, 1]}],
+    ["emit", "comment", ["\u03b2-galactosidase \u2192 5 \u00b5L"], {}],  # not encodable as Latin-1: saving may refuse, never re-encode
 ]
 NAMES = ["w.gwl", "W.GWL", "other.gwl", "w.txt", "w", "w.gwlx"]
 FOREIGN = b"C;written by somebody else\r\n" + b"A;X;;;1;;1.00;;;;\r\nD;X;;;2;;1.00;;;;\r\nW1;\r\n" * 8
@@ -60,19 +61,25 @@ class Harness(cm.BaseA):
 
     def configs(self, tier):
         out = []
-        for cls in ("EvoWorklist", "FluentWorklist"):
+        for cls in ("EvoWorklist", "FluentWorklist", "NotebookWorklist"):
             for path in (None, "w.gwl"):
-                for ptype in ("str", "Path"):
-                    if path is None and ptype == "Path":
+                for ptype in ("str", "Path", "PurePath", "fspath"):
+                    if path is None and ptype != "str":
+                        continue
+                    if (cls == "NotebookWorklist" and ptype != "str") or (ptype in ("PurePath", "fspath") and cls != "FluentWorklist"):
                         continue
                     for initial in (None, 3, 5000):
+                        if initial == 3 and (cls == "NotebookWorklist" or ptype in ("PurePath", "fspath")):
+                            continue
                         out.append({"cls": cls, "path": path, "ptype": ptype, "initial": initial})
         return out
 
     def init(self, config):
         p = config["path"]
-        if p is not None and config["ptype"] == "Path":
-            p = Path(p)
+        if p is not None and config["ptype"] != "str":
+            import pathlib
+
+            p = {"Path": Path, "PurePath": pathlib.PurePosixPath, "fspath": FsPath}[config["ptype"]](p)
         wl = WLCLS[config["cls"]](p) if p is not None else WLCLS[config["cls"]]()
         files = {}
         if config["initial"] is not None:
@@ -80,10 +87,10 @@ class Harness(cm.BaseA):
         return {"wl": wl, "files": files}
 
     def core_events(self, W, config):
-        return EMIT[:4] + EMIT[10:11] + [["save", "w.gwl", "str"], ["save", "W.GWL", "Path"], ["save", "w.txt", "str"], ["save", "other.gwl", "str"], ["enter"], ["exit", False], ["exit", True], ["foreign", "w.gwl"], ["foreign", "w.gwl", "lf"]]
+        return EMIT[:4] + EMIT[10:11] + EMIT[12:13] + [["save", "w.gwl", "str"], ["save", "W.GWL", "Path"], ["save", "w.txt", "str"], ["save", "other.gwl", "str"], ["enter"], ["exit", False], ["exit", True], ["foreign", "w.gwl"], ["foreign", "w.gwl", "lf"]]
 
     def full_events(self, W, config):
-        ev = list(EMIT if config["cls"] == "EvoWorklist" else EMIT[:-1])
+        ev = list(EMIT if config["cls"] != "FluentWorklist" else EMIT[:11] + EMIT[12:])
         for n in NAMES:
             for t in ("str", "Path"):
                 ev.append(["save", n, t])
@@ -184,6 +191,11 @@ class Harness(cm.BaseA):
         res = {"outcome": f"{ev[0]}:{ev[1] if ev[0] in ('emit', 'save') else ''}:{out}", "violations": []}
         V = res["violations"]
         want = "\r\n".join(recs).encode("latin-1", "replace")
+        try:
+            "\n".join(recs).encode("latin-1")
+            encodable = True
+        except UnicodeEncodeError:
+            encodable = False
 
         def check_file(name):
             got = files.get(name)
@@ -207,8 +219,12 @@ class Harness(cm.BaseA):
             name = ev[1]
             valid = name.lower().endswith(".gwl")
             if valid:
-                if exc is not None:
+                if exc is not None and not encodable:
+                    pass  # records that Latin-1 cannot express: refusing is fine, the half-written file is not judged
+                elif exc is not None:
                     V.append(("C17/save-refused", f"save({name!r}) raised {type(exc).__name__}"))
+                elif not encodable:
+                    V.append(("C17/file-content", f"save({name!r}) wrote records that Latin-1 cannot express: {files.get(name, b'')[:60]!r}..."))
                 else:
                     check_file(name)
                     res["nontrivial"] = self.canon(W, config)
@@ -227,11 +243,14 @@ class Harness(cm.BaseA):
             if files != oldfiles:
                 V.append(("C17/other-files-touched", "__enter__ touched the directory"))
         elif ev[0] in ("exit", "with_raise"):
-            if exc is not None:
+            if exc is not None and not (not encodable and config["path"]):
                 V.append(("C17/exit-raised", f"{ev}: {type(exc).__name__}: {exc}"))
             if ev[0] == "with_raise" and recs != ["C;inside", "B;"]:
                 V.append(("C17/enter-not-empty", f"with-block started from a non-empty worklist: {recs[:4]}"))
-            if config["path"]:
+            if config["path"] and not encodable:
+                if exc is None:
+                    V.append(("C17/file-content", f"{ev} wrote records that Latin-1 cannot express: {files.get(config['path'], b'')[:60]!r}..."))
+            elif config["path"]:
                 check_file(config["path"])
                 res["nontrivial"] = self.canon(W, config)
                 if not others_unchanged(config["path"]):
@@ -243,9 +262,9 @@ class Harness(cm.BaseA):
                 V.append(("C17/other-files-touched", f"{ev} changed the directory"))
         if len(recs) > 500:
             res["expand"] = False
-        if str(wl) != "\n".join(recs):
+        if config["cls"] != "NotebookWorklist" and str(wl) != "\n".join(recs):
             V.append(("C17/str", f"str(worklist) = {str(wl)[:80]!r}"))
         fp = wl.filepath
-        if (fp is None) != (config["path"] is None) or (fp is not None and str(fp) != config["path"]):
+        if (fp is None) != (config["path"] is None) or (fp is not None and os.fspath(fp) != config["path"]):
             V.append(("C17/filepath", f"filepath property {fp!r} vs configured {config['path']!r}"))
         return res
